@@ -78,6 +78,30 @@ def expected(buf):
     return None
 
 
+_LOG = []
+
+
+def _quiet_logger():
+    """a logger that formats its records (into a sink) without touching stderr; formatting errors are raised, not swallowed"""
+    import logging
+    if not _LOG:
+        lg = logging.getLogger("vf.c08.sink")
+        lg.propagate = False
+        lg.setLevel(logging.DEBUG)
+
+        class H(logging.Handler):
+            def emit(self, record):
+                self.format(record)
+
+            def handleError(self, record):
+                raise
+        h = H()
+        h.setFormatter(logging.Formatter("%(message)s"))
+        lg.addHandler(h)
+        _LOG.append(lg)
+    return _LOG[0]
+
+
 def run_device(case):
     from vf.props import c07
     _, mode, tr, steps = case
@@ -122,6 +146,19 @@ def run_case(case, obs=None):
     if obs is not None:
         obs.append((text, exp))
     if case[-1] == "clone" and text is not None:
+        # ... and gets reported by Python's own machinery: traceback formatting, logging with exc_info, notes, attribute probing
+        import logging
+        import traceback
+        for how, fn in (("traceback.format_exception", lambda: "".join(traceback.format_exception(type(e), e, None))),
+                        ("hasattr/getattr with a default", lambda: (hasattr(e, "no_such_attribute"), getattr(e, "errno", None))),
+                        ("add_note", lambda: e.add_note("seen by the harness")),
+                        ("logging with exc_info", lambda: _quiet_logger().error("sense", exc_info=(type(e), e, None)))):
+            try:
+                r = fn()
+                if how.startswith("traceback") and text not in r:
+                    out.append(("report_differs/%s" % fmt, "%s of the error for sense %s lacks its text %r: %r" % (how, buf[:20].hex(), text, r[-200:])))
+            except Exception as ex:   # noqa: BLE001
+                out.append(("report_raises/%s" % fmt, "%s of the error for sense %s raised %s: %s" % (how, buf[:20].hex(), type(ex).__name__, ex)))
         # the error object travels: copy.copy / copy.deepcopy / pickle (what multiprocessing and concurrent.futures do with a
         # worker's exception) must give an error that reports the same
         import copy
